@@ -11,7 +11,7 @@ must express the same constraints.  (The built-in bus's AddMatch is exercised by
 """
 from simdbus import gen, matchref, net, refcodec as rc
 from simdbus.harness import ClientRig, Obs, check_no_exceptions, exc_key
-from simdbus.kernel import Violation
+from simdbus.kernel import SimCancelled, Violation
 from simdbus.sched import Scheduler
 
 PROPERTY = 'C12'
@@ -30,7 +30,8 @@ PROBES = ['signal-matches-some-rule', 'near-miss-path-sibling', 'near-miss-names
           'type-constraint-other', 'signal-while-add-pending', 'signal-while-del-pending',
           'signal-after-removal', 'callback-raised', 'proxy-signal-right-signature',
           'proxy-signal-wrong-signature', 'two-rules-one-signal', 'apostrophe-in-value',
-          'empty-body-with-arg-rule']
+          'empty-body-with-arg-rule', 'proxy-subscription-without-interface',
+          'same-rule-id-on-two-connections']
 COMPONENTS = {
     'real': ['txdbus.router.MessageRouter / Rule.match', 'txdbus.client.DBusClientConnection '
              '(addMatch, delMatch, signalReceived)', 'txdbus.objects.RemoteDBusObject '
@@ -166,12 +167,15 @@ def scenario(ctx):
 
     d_sig = gen.IfaceDesc('org.sim.I1')
     d_sig.signals = [('Changed', 'ss'), ('Tick', '')]
+    d_sig2 = gen.IfaceDesc('org.sim.I2')
+    d_sig2.signals = [('Changed', 's'), ('Tick', '')]
     proxy = [None]
 
     def setup():
         from txdbus import interface as ti
         i1 = gen.tx_interface(d_sig, register=False)
-        d = cl.getRemoteObject('org.sim.svc', '/a/b', i1)
+        i2 = gen.tx_interface(d_sig2, register=False)
+        d = cl.getRemoteObject('org.sim.svc', '/a/b', [i1, i2])
         d.addCallback(lambda p: proxy.__setitem__(0, p))
     rig.call(setup)
 
@@ -191,6 +195,8 @@ def scenario(ctx):
             sim.log('sig-cb', idx)
             if rules[idx]['raises']:
                 sim.probe('callback-raised')
+                if rules[idx]['raises'] == 2:
+                    raise SimCancelled('callback %d cancelled' % idx)
                 raise RuntimeError('callback %d fails' % idx)
         return cb
 
@@ -205,16 +211,23 @@ def scenario(ctx):
         use_proxy = proxy[0] is not None and ds.flag(0.3)
         if use_proxy:
             sname = ds.pick(['Changed', 'Tick'])
-            spec = {'mtype': 'signal', 'path': '/a/b', 'member': sname, 'interface': 'org.sim.I1'}
-            r = {'spec': spec, 'state': 'adding', 'raises': False, 'proxy_sig': dict(d_sig.signals)[sname],
-                 'id': None}
+            # without interface= the first interface declaring the signal is meant; with it, that one
+            which = ds.pick([None, 'org.sim.I1', 'org.sim.I2'])
+            dd = d_sig2 if which == 'org.sim.I2' else d_sig
+            spec = {'mtype': 'signal', 'path': '/a/b', 'member': sname, 'interface': dd.name}
+            r = {'spec': spec, 'state': 'adding', 'raises': False, 'proxy_sig': dict(dd.signals)[sname],
+                 'id': None, 'which': which}
             rules.append(r)
             scan_sent()
             sim.log('op', 'notifyOnSignal', sname)
-            d = rig.call(proxy[0].notifyOnSignal, sname, mk_cb(idx))
+            if which is None:
+                sim.probe('proxy-subscription-without-interface')
+                d = rig.call(proxy[0].notifyOnSignal, sname, mk_cb(idx))
+            else:
+                d = rig.call(proxy[0].notifyOnSignal, sname, mk_cb(idx), which)
         else:
             spec = gen_rule(ds)
-            r = {'spec': spec, 'state': 'adding', 'raises': ds.flag(0.15), 'proxy_sig': None,
+            r = {'spec': spec, 'state': 'adding', 'raises': ds.weighted([6, 0.7, 0.5]), 'proxy_sig': None,
                  'id': None}
             rules.append(r)
             scan_sent()
@@ -444,3 +457,38 @@ def scenario(ctx):
     ok = sched.drain(500 * (3 if ctx.tier == 'thorough' else 1), extra, invariant)
     if not ok:
         raise Violation('C12/liveness', 'no quiescence', 'drain did not reach quiescence')
+    if ds.flag(0.25):
+        # two more connections of the same process, each with a proxy whose first subscription
+        # gets the same rule id: cancelling one must not disable cancelling the other
+        sim.probe('same-rule-id-on-two-connections')
+        extra_rigs = []
+        for k in range(2):
+            r2 = ClientRig(ctx, name='x%d' % k, bus_name=':1.%d' % (80 + k))
+            hits = []
+            st = {}
+
+            def setup2(r2=r2, hits=hits, st=st):
+                i1 = gen.tx_interface(d_sig, register=False)
+                d = r2.proto.getRemoteObject('org.sim.svc', '/a/b', i1)
+                d.addCallback(lambda p: st.__setitem__('proxy', p))
+            r2.call(setup2)
+            d = r2.call(st['proxy'].notifyOnSignal, 'Tick', lambda hits=hits: hits.append(1))
+            d.addCallback(lambda rid, st=st: st.__setitem__('rid', rid))
+            r2.calm()
+            extra_rigs.append((r2, st, hits))
+        for r2, st, hits in extra_rigs:
+            if 'rid' not in st:
+                raise Violation('C12/addmatch-call', 'no rule id', 'notifyOnSignal did not complete')
+            n0 = len([m for m in r2.sent if m.fields.get(rc.F_MEMBER) == 'RemoveMatch'])
+            r2.call(st['proxy'].cancelSignalNotification, st['rid'])
+            r2.calm()
+            n1 = len([m for m in r2.sent if m.fields.get(rc.F_MEMBER) == 'RemoveMatch'])
+            if n1 != n0 + 1:
+                raise Violation('C12/removematch-call', 'second connection',
+                                'cancelSignalNotification on connection %s sent %d RemoveMatch calls'
+                                % (r2.conn.name, n1 - n0))
+            r2.daemon.signal('/a/b', 'org.sim.I1', 'Tick')
+            r2.calm()
+            if hits:
+                raise Violation('C12/wrongly-delivered', 'after removal (second connection)',
+                                'callback ran after its subscription was cancelled')
